@@ -140,6 +140,8 @@ def to_float(a: np.ndarray) -> np.ndarray:
     if a.dtype != object:
         return a.astype(float)
     out = np.empty(a.shape, dtype=float)
+    if a.size == 0:
+        return out
     it = np.nditer(a, flags=["multi_index", "refs_ok"])
     for x in it:
         v = x.item()
